@@ -197,6 +197,27 @@ pub fn check_partition(ivs: &[(u32, u32)], p: &CharPartition, chars: &[u32], o: 
     if ids != exp_ids {
         o.fail("C11/class_ids", format!("{}: class_ids() = {:?}", sp(), ids));
     }
+    // the iterators through the rest of the Iterator protocol: nth / skip / step_by / last / count must
+    // agree with plain next()
+    {
+        let all_ids: Vec<ClassId> = p.class_ids().take(n + 5).collect();
+        let all_picks: Vec<u32> = p.picks().take(n + 5).collect();
+        let ks: Vec<usize> = if all_ids.len() <= 12 { (0..=all_ids.len() + 1).collect() } else { vec![0, 1, all_ids.len() / 2, all_ids.len() - 2, all_ids.len() - 1, all_ids.len(), all_ids.len() + 1] };
+        for &k in &ks {
+            o.evals += 4;
+            let a = (p.class_ids().nth(k), p.class_ids().skip(k).next(), p.picks().nth(k), p.picks().skip(k).next());
+            let e = (all_ids.get(k).copied(), all_ids.get(k).copied(), all_picks.get(k).copied(), all_picks.get(k).copied());
+            if a != e {
+                o.fail("C11/iterator-protocol", format!("{}: at position {}: class_ids().nth = {:?}, skip().next = {:?}, picks().nth = {:x?}, skip().next = {:x?}; plain iteration gives {:?} / {:x?}", sp(), k, a.0, a.1, a.2, a.3, e.0, e.2));
+                break;
+            }
+        }
+        let stepped: Vec<u32> = p.picks().step_by(2).take(n + 5).collect();
+        let exp_stepped: Vec<u32> = all_picks.iter().copied().step_by(2).collect();
+        if stepped != exp_stepped || p.picks().count() != all_picks.len() || p.class_ids().count() != all_ids.len() || p.picks().last() != all_picks.last().copied() || p.class_ids().last() != all_ids.last().copied() {
+            o.fail("C11/iterator-protocol", format!("{}: step_by(2) / count / last of picks() or class_ids() disagree with plain iteration ({:x?} vs {:x?})", sp(), stepped, exp_stepped));
+        }
+    }
     // picks: one character of every class
     let picks: Vec<u32> = p.picks().take(n + 5).collect();
     let mut pick_classes: Vec<ClassId> = picks.iter().map(|&c| if c > MAX { ClassId::Interval(usize::MAX - 1) } else { class_of(ivs, c) }).collect();
